@@ -10,6 +10,10 @@ current tree):
   leg 2  real VM vs `rt_eval`     : the same tree with every leaf in a variable
   leg 3  literal version vs variable version, both run: THE PROPERTY'S OWN ORACLE (no model);
          "compile error: division by zero" counts as equal to a division_by_zero fault
+The same three legs run for enumerator initialisers (front/enumred.c, model Arith/Enumred.v):
+`enum E { k = <expr> }` read back as an int vs the same expression over int variables
+(keys `enumred-differs:<op>:<types>`, `<op>:int_min/-1:enumred`,
+`div0-rejected-but-not-evaluated:<op>:enumred`).
 A leg-3 difference is a VIOLATION (shrunk to the smallest failing subtree; key
 `fold-differs:<op>:<types>`, `emit-abort:<op>:<types>`, `div0-rejected-but-not-evaluated:<op>`,
 `<op>:<int|long|enum>_min/-1:constred`); a leg-1/leg-2 difference is a broken correspondence.
@@ -286,6 +290,114 @@ def run(ctx):
         else:
             counts["leg3-agree"] += 1
 
+    # ---- enumerator initialisers: front/enumred.c, the second constant evaluator -----------
+    etrees = ac.enum_cases(rng, 30 if quick else 120, 500 if quick else 4000)
+    for obj in load_corpus():
+        if obj.get("kind") == "enum":
+            etrees.insert(0, totuple(obj["tree"]))
+
+    def eval_enum(trees, tag):
+        ids = ["%s%05d" % (tag, i) for i in range(len(trees))]
+        mo = ae.run_model(["N %s %s" % (i, ac.sx(t)) for i, t in zip(ids, trees)])
+        progs = []
+        for i, t in zip(ids, trees):
+            progs.append((i + ".e", "", ac.program_enum(t)))
+            progs.append((i + ".v", "", ac.program_var(ac.enum_to_int(t), "int")))
+        rr = al.run_batch(Tp["nevrun"], progs, work, "c10-" + tag)
+        out = []
+        for i, t in zip(ids, trees):
+            m = ae.parse_model_E(mo[i]) if i in mo else None
+            out.append({"tree": t, "model": m,
+                        "enum_program": ac.program_enum(t),
+                        "variable_program": ac.program_var(ac.enum_to_int(t), "int"),
+                        "enum": ae.canon_real(al.classify_run(rr.get(i + ".e"))),
+                        "var": ae.canon_real(al.classify_run(rr.get(i + ".v")))})
+        return out
+
+    def classify_enum(r):
+        en, var = r["enum"], r["var"]
+        if en[0] == "crash":
+            return ("trap", "the compiler dies with SIGFPE reducing the enumerator initialiser") if en[1] == "sigfpe" \
+                else ("enumred-crash", "the compiler crashes (%s) on the enumerator initialiser" % en[1])
+        if en == ("compile_error", "other") or en == ("compile_error", "prepare"):
+            return None if var[0] in ("val", "fault") else ("enumred-differs", "initialiser rejected, run-time version crashes")
+        if ae.same_outcome_lit_var(en, var):
+            return None
+        if en == ("compile_error", "division by zero") and var[0] == "val":
+            return ("div0-rejected-but-not-evaluated",
+                    "initialiser rejected as division by zero although the VM never evaluates that division")
+        return ("enumred-differs", "the enumerator computed by the compiler differs from the same expression evaluated at run time")
+
+    def enum_key(prefix, tree):
+        rk = ae.root_key(ac.enum_to_int(tree))
+        if prefix == "trap":
+            return "%s:int_min/-1:enumred" % rk.split(":")[0]
+        if prefix == "div0-rejected-but-not-evaluated":
+            return "%s:%s:enumred" % (prefix, rk.split(":")[0])
+        return "%s:%s" % (prefix, rk)
+
+    efail = []
+    for r in eval_enum(etrees, "n"):
+        m = r["model"]
+        if m is None or m["ty"] is None:
+            counts["enumred-rejected-by-model-typechecker"] += 1
+            continue
+        counts["evaluations"] += 1
+        counts["enumred-cases"] += 1
+        if m["ub"]:
+            counts["excluded-C-UB"] += 1
+            continue
+        case = {"tree": ac.sx(r["tree"]), "enum_program": r["enum_program"], "variable_program": r["variable_program"]}
+        en = r["enum"]
+        if en in (("compile_error", "other"), ("compile_error", "prepare")):
+            counts["enumred-initialiser-not-reducible"] += 1
+        nontrivial.add(("enumred", ae.root_key(ac.enum_to_int(r["tree"])), en[0]))
+        # model (Arith/Enumred.v) vs real reducer, model rt_eval vs real VM
+        want = {"lit": ("val", "int", m["fold"][2] if m["fold"][0] == "lit" else None),
+                "reject": ("compile_error", "division by zero"), "crash": ("crash", "sigfpe"),
+                "residual": ("compile_error", "other"), "residual-noemit": ("compile_error", "other")}[m["fold"][0]]
+        if en != want:
+            ctx.correspondence_broken("enumred-vs-efold", dict(case, model_efold=m["fold"], real=en))
+        else:
+            counts["enumred-leg1-agree"] += 1
+        if r["var"] != m["rt"]:
+            ctx.correspondence_broken("vm-vs-rt_eval", dict(case, model=m["rt"], real=r["var"]))
+        c = classify_enum(r)
+        if c is None:
+            counts["enumred-leg3-agree"] += 1
+        else:
+            efail.append((r, c))
+    # shrink to the smallest failing subtree (bool subtrees are read through ?:)
+    subs, owner = [], []
+    for k, (r, c) in enumerate(efail[:60]):
+        for st in ac.subtrees(r["tree"]):
+            if st[0] == "L" or st == r["tree"]:
+                continue
+            isb = st[0] == "B" and (st[1] in ac.CMP or st[1] in ("and", "or")) or st[0] == "U" and st[1] == "not"
+            subs.append(ac.as_int_tree(st, isb))
+            owner.append(k)
+    best = {}
+    if subs:
+        for k, r2 in zip(owner, eval_enum(subs, "ns")):
+            if not r2["model"] or r2["model"]["ty"] is None or r2["model"]["ub"]:
+                continue
+            c2 = classify_enum(r2)
+            if c2 is not None and (k not in best or ac.size(r2["tree"]) < ac.size(best[k][0]["tree"])):
+                best[k] = (r2, c2)
+    for k, (r, c) in enumerate(efail):
+        r2, c2 = best.get(k, (r, c))
+        t2 = r2["tree"]
+        # look through the ?: used to read a bool
+        core = t2[1][1] if (t2[0] == "C" and t2[2] == ("L", "i", 10) and t2[3] == ("L", "i", 11) and t2[1][0] == "P") else t2
+        key = enum_key(c2[0], core)
+        viol_seen[key] = viol_seen.get(key, 0) + 1
+        if viol_seen[key] > 1:
+            continue
+        ctx.violation(key, "%s in an enumerator initialiser: %s" % (ae.root_key(ac.enum_to_int(core)), c2[1]),
+                      {"tree": ac.sx(t2), "enum_program": r2["enum_program"], "variable_program": r2["variable_program"],
+                       "enumerator_outcome": r2["enum"], "variable_outcome": r2["var"],
+                       "model": {"efold": r2["model"]["fold"], "rt_eval": r2["model"]["rt"]}})
+
     ctx.count(evaluations=counts["evaluations"], nontrivial=len(nontrivial))
     ctx.coverage["rule"] = (
         "expression trees over literal leaves: every operator x every admitted ordered pair of literal kinds "
@@ -300,4 +412,8 @@ def run(ctx):
     ctx.notes["excluded"] = ("C undefined behaviour: out-of-range float->int conversions, shift counts >= width "
                              "(%d cases); trees whose static type is an enum (not returnable from main): %d"
                              % (counts["excluded-C-UB"], counts["enum-typed-result-skipped"]))
-    ctx.notes["not_modelled"] = "front/enumred.c (reduction of enumerator initialisers): exercised only through enum leaves with explicit values"
+    ctx.notes["enumred_leg"] = ("front/enumred.c: `enum E { k = <expr> }` read back vs the same expression over int variables; "
+                                "model Arith/Enumred.v (efold); proved against rt_eval on int/bool trees without ?:, == != "
+                                "(enumred_agrees_with_runtime_partial), the rest is correspondence-only; initialisers enumred.c "
+                                "cannot reduce (== != on ints, long/float operands) are counted, not violations: %d"
+                                % counts["enumred-initialiser-not-reducible"])
